@@ -59,7 +59,7 @@ pub fn relayout(rows: &[HRow], seeds: &[u16], tags: &mut Vec<String>) -> Vec<(St
         if s(10 + f) % 2 == 0 { cols.retain(|c| ["security", "trade date", "settlement date", "action"].contains(&c.as_str()) || chunk.iter().any(|r| !cell(r, c).is_empty())); tags.push("empty-columns-absent".into()); }
         // unknown columns with junk
         let n_unknown = (s(20 + f) % 4) as usize;
-        for u in 0..n_unknown { cols.push([["notes", "broker", "Account #", "x"], ["", "broker", "  ", "x"]][(s(25 + f) % 2) as usize][u].to_string()); }
+        for u in 0..n_unknown { cols.push([["notes", "broker", "Account #", "x"], ["", "broker", "  ", "x"], ["Commission (broker estimate)", "Shares (post-split)", "memo (old)", "x"]][(s(25 + f) % 3) as usize][u].to_string()); }
         if n_unknown > 0 { tags.push("unknown-columns".into()); }
         // permutation
         let mut order: Vec<usize> = (0..cols.len()).collect();
@@ -140,7 +140,7 @@ fn check(c: &LayoutCase, obs: &mut Obs) -> Verdict {
 }
 
 pub fn def() -> PropDef {
-    let mut d = PropDef::new("C07", "a generated input (ledger generator, one file, canonical columns) and a generated re-layout of the same rows: 1-5 files in order (file names mostly NOT in the text order of the order given: reversed numbering, broker-style names), per-file column permutation, header case/padding variants, 0-3 unrecognised columns (named, or with an empty / blank header cell) with junk cells (including cells starting with '#'), memos starting with '#', '=' or a quote, optional columns absent when empty, legacy 'date' header, padded cells, CRLF line ends, and a random row permutation constrained to keep the relative order of rows of one security settling on one date; in a third of the cases the trade dates of rows without a rate look-up are moved as well (only the trade-date column may change). A third of the inputs with several rate look-ups start (in both layouts) from the rate cache an earlier run in the middle of the history would have left. Every cell of every security table, footer, aggregate table and (in half the cases) the total-costs tables must be identical in full precision; notes compared as multisets. Non-trivial = >= 2 files AND permuted columns AND at least one pair of same-security same-day rows. Distinct = distinct case content.");
+    let mut d = PropDef::new("C07", "a generated input (ledger generator, one file, canonical columns) and a generated re-layout of the same rows: 1-5 files in order (file names mostly NOT in the text order of the order given: reversed numbering, broker-style names), per-file column permutation, header case/padding variants, 0-3 unrecognised columns (named - also like a known column plus a parenthesised note -, or with an empty / blank header cell) with junk cells (including cells starting with '#'), memos starting with '#', '=' or a quote, optional columns absent when empty, legacy 'date' header, padded cells, CRLF line ends, and a random row permutation constrained to keep the relative order of rows of one security settling on one date; in a third of the cases the trade dates of rows without a rate look-up are moved as well (only the trade-date column may change). A third of the inputs with several rate look-ups start (in both layouts) from the rate cache an earlier run in the middle of the history would have left. Every cell of every security table, footer, aggregate table and (in half the cases) the total-costs tables must be identical in full precision; notes compared as multisets. Non-trivial = >= 2 files AND permuted columns AND at least one pair of same-security same-day rows. Distinct = distinct case content.");
     d.assumptions = vec!["the order of notes is C09's business and ignored here"];
     d.subs.push(Box::new(Sub::<LayoutCase> { name: "relayout", cases_quick: 50_000, cases_thorough: 800_000, strategy: Box::new(strategy), to_json: LayoutCase::to_json, from_json: LayoutCase::from_json, check }));
     d
